@@ -368,9 +368,12 @@ func (symbol *nonSetCompositeEntitySymbol) Eval(tx *bbolt.Tx, rowId []byte) (Fie
 }
 
 type compositeEntitySetSymbol struct {
-	name        string
-	symbolType  ast.NodeType
-	chain       []iterableEntitySymbol
+	name       string
+	symbolType ast.NodeType
+	chain      []iterableEntitySymbol
+	// tail is the non-iterable remainder of the path (if any), evaluated on each row the chain yields. It
+	// must stay part of the chain when this symbol is itself embedded in a longer path
+	tail        EntitySymbol
 	cursor      *stackedCursor
 	cursorLastF func(tx *bbolt.Tx, key []byte) (FieldType, []byte)
 }
@@ -379,6 +382,9 @@ func (symbol *compositeEntitySetSymbol) getChain() []EntitySymbol {
 	var result []EntitySymbol
 	for _, chainSymbol := range symbol.chain {
 		result = append(result, chainSymbol)
+	}
+	if symbol.tail != nil {
+		result = append(result, symbol.tail)
 	}
 	return result
 }
